@@ -433,7 +433,14 @@ fn sponge_trace<const W: usize, A: RescueApi<W>>(out: &mut dyn Write, rng: &mut 
     };
     for n in [0usize, 1, 2, 3, 4, 5, 6, 7, 8, 9, 10, 11, 12, 13, 15, 16, 17, 24] {
         let elems: Vec<A::F> = (0..n).map(|i| if i % 4 == 0 { -A::F::ONE } else { A::F::from(rng.next() as u32) * A::F::from(rng.next() as u32) }).collect();
-        if let Some(digest) = A::hash_elems(&elems) {
+        let hd = match guarded(|| A::hash_elems(&elems)) {
+            Ok(d) => d,
+            Err(p) => {
+                writeln!(out, "{}", json!({"ev": "panic", "fn": "hash_elements", "len": n, "what": panic_key(&p)})).unwrap();
+                None
+            },
+        };
+        if let Some(digest) = hd {
             let pairs = drive(&elems);
             writeln!(out, "{}", json!({"ev": "sponge", "kind": "elements", "elems": elems.iter().map(|e| ib(*e)).collect::<Vec<_>>(), "bytes": Vec::<u8>::new(),
                 "pre": pairs.iter().map(|p| p.0.clone()).collect::<Vec<_>>(), "post": pairs.iter().map(|p| p.1.clone()).collect::<Vec<_>>(), "digest": digest})).unwrap();
@@ -441,7 +448,14 @@ fn sponge_trace<const W: usize, A: RescueApi<W>>(out: &mut dyn Write, rng: &mut 
     }
     for n in [0usize, 1, 6, 7, 8, 13, 14, 15, 55, 56, 57, 62, 63, 64, 112, 113, 120] {
         let bytes: Vec<u8> = (0..n).map(|i| if i % 5 == 4 { 0 } else { rng.next() as u8 }).collect();
-        if let Some(digest) = A::hash_bytes(&bytes) {
+        let hd = match guarded(|| A::hash_bytes(&bytes)) {
+            Ok(d) => d,
+            Err(p) => {
+                writeln!(out, "{}", json!({"ev": "panic", "fn": "hash", "len": n, "what": panic_key(&p)})).unwrap();
+                None
+            },
+        };
+        if let Some(digest) = hd {
             // elements of a byte string: 7-byte chunks, the last one padded with a 1 byte
             let nchunks = (n + 6) / 7;
             let elems: Vec<A::F> = bytes.chunks(7).enumerate().map(|(k, c)| {
